@@ -96,6 +96,13 @@ Theorem C05_rnto_consumes_pending_rename : forall users self arg d appe w,
 Proof. exact rnto_consumes. Qed.
 Print Assumptions C05_rnto_consumes_pending_rename.
 
+(* USER drops a pending rename source whatever the outcome of the lookup (repair of F18: before it a
+   RNFR accepted for one login could be completed by RNTO under the next login) *)
+Theorem C05_reuser_drops_pending_rename : forall users self arg d appe w,
+  s_rnfr (w_s (res_world (body users self "user" arg d appe w))) = None.
+Proof. exact user_drops_rnfr. Qed.
+Print Assumptions C05_reuser_drops_pending_rename.
+
 Theorem C05_relogin_resets_cwd : forall users self arg d appe w i u,
   find_user users 0 arg None = Some i -> nth_error users i = Some u ->
   s_cwd (w_s (res_world (body users self "user" arg d appe w))) = u_home u.
@@ -135,3 +142,124 @@ Example C05_rest_applies_to_one_transfer :
   map (fun x => o_bytes (fst x)) (skipn 5 outs)
   = [Some [52;53;54;55;56;57]%Z; None; Some [48;49;50;51;52;53;54;55;56;57]%Z].
 Proof. vm_compute. reflexivity. Qed.
+
+(* ====================================================================================================
+   The handler BODIES as programs translated from server.py (tools/py2v/gen_handlers.py -> Gen/Handlers.v,
+   language Lib/HandlerFacts.v, interpreter Model/HandlerProg.v, proofs Proofs/HandlerProg.v). *)
+From Verif Require Import Lib.HandlerFacts Model.HandlerProg Proofs.HandlerProg.
+From Verif Require Gen.Handlers.
+
+(* closed obligation, re-checked on every run: the 25 handler bodies of TODAY's server.py translate
+   (no unclassified statement) to exactly the reference programs [ref_programs] *)
+Theorem C05_handler_programs_are_reference :
+  Gen.Handlers.translator_ok = true /\ handler_programs_match = true.
+Proof. exact handler_programs_match_ok. Qed.
+Print Assumptions C05_handler_programs_are_reference.
+
+(* the handlers of the programs are the handlers of the decorator table: the 25 *)
+Theorem C05_handler_names :
+  handler_names = ["abor"; "appe"; "cdup"; "cwd"; "dele"; "epsv"; "list"; "mkd"; "mlsd"; "mlst"; "pass_"; "pasv"; "pbsz";
+                   "prot"; "pwd"; "quit"; "rest"; "retr"; "rmd"; "rnfr"; "rnto"; "stor"; "syst"; "type"; "user"]%string
+  /\ forallb (fun e => mem_s (fst (fst (snd e))) handler_names) ref_table = true
+  /\ forallb (fun n => existsb (fun e => String.eqb (fst (fst (snd e))) n) ref_table) handler_names = true.
+Proof. exact handler_names_are_the_25. Qed.
+Print Assumptions C05_handler_names.
+
+(* THE tie: the hand-written [body] of Model/Session.v IS the denotation of the program translated from
+   today's source -- for every handler of the table, every user table, delegation callback, argument,
+   data action, appe flag and world.  [body_pre] constrains two handlers only:
+     rnto  : connection.rename_from present  (its ConnectionConditions(rename_from_required) guarantees it;
+             absent => AttributeError in the source, 503 in [body]);
+     pass_ : connection.user present          (ConnectionConditions(user_required)). *)
+Theorem C05_model_is_program_denotation : forall users self name arg d appe w,
+  In name handler_names -> body_pre name w ->
+  run_handler_prog users self (prog_of Gen.Handlers.programs name) arg d appe w
+  = Some (body users self name arg d appe w).
+Proof. exact gen_body_is_denotation. Qed.
+Print Assumptions C05_model_is_program_denotation.
+
+(* ... and lifted through the decorator stacks: the WHOLE handler (the generic decorator interpreter around
+   the program denotations, delegation CDUP->CWD / APPE->STOR included) computed from today's translated
+   programs is the model's [handler] -- the function [step] calls -- for EVERY world: the handlers' own
+   ConnectionConditions establish what rnto / pass_ read, so NO hypothesis remains *)
+Theorem C05_handler_is_program_denotation : forall users fuel name arg d appe w,
+  handler_prog users ref_table Gen.Handlers.programs fuel name arg d appe w
+  = handler users ref_table fuel name arg d appe w.
+Proof. exact gen_handler_is_program_denotation. Qed.
+Print Assumptions C05_handler_is_program_denotation.
+
+(* [body_pre] is satisfiable and is no restriction for the other 23 handlers *)
+Theorem C05_body_pre_trivial : forall name w,
+  name <> "rnto"%string -> name <> "pass_"%string -> body_pre name w.
+Proof. exact body_pre_trivial. Qed.
+Print Assumptions C05_body_pre_trivial.
+
+Theorem C05_body_pre_from_fields : forall name w,
+  has_field (w_s w) "rename_from" = true -> has_field (w_s w) "user" = true -> body_pre name w.
+Proof. exact body_pre_from_fields. Qed.
+Print Assumptions C05_body_pre_from_fields.
+
+(* PWD: with a double quote in a directory name the source answers 257 DQ/aDQDQbDQ (DQ = the double
+   quote; the one inside the name doubled, repair of F08) and so does [body] *)
+Theorem C05_pwd_doubles_quotes : forall users self,
+  option_map (fun r => o_info (snd (fst r)))
+             (run_handler_prog users self (prog_of ref_programs "pwd") [] DNone false W_quote)
+    = Some [34; 47; 97; 34; 34; 98; 34]%Z
+  /\ o_info (snd (fst (body users self "pwd" [] DNone false W_quote))) = [34; 47; 97; 34; 34; 98; 34]%Z.
+Proof. exact pwd_model_doubles_quotes. Qed.
+Print Assumptions C05_pwd_doubles_quotes.
+
+(* the data-connection callback PASV / EPSV define is a program too, and [step]'s pseudo-verb "the peer
+   connects to the passive listener" is its denotation wherever a listener exists *)
+Theorem C05_dataconn_is_callback_denotation : forall users t w e,
+  s_ended (w_s w) = false -> text_eqb (e_verb e) V_DATACONN = true -> s_passive (w_s w) = true ->
+  hd_error (hp_body (prog_of Gen.Handlers.programs "pasv")) = Some (HDefCallback "handler" data_callback_body)
+  /\ hd_error (hp_body (prog_of Gen.Handlers.programs "epsv")) = Some (HDefCallback "handler" data_callback_body)
+  /\ run_callback users data_callback_body (w_s w) = Some (w_s (fst (step users t w e))).
+Proof.
+  intros users t w e En V Pa.
+  exact (conj (proj1 callback_in_programs) (conj (proj2 callback_in_programs)
+          (dataconn_is_callback_denotation users t w e En V Pa))).
+Qed.
+Print Assumptions C05_dataconn_is_callback_denotation.
+
+(* the interpreter is not inert: one-statement variants of the source have no denotation or a different one *)
+Example C05_cwd_real_path_has_no_denotation : forall users self arg d appe w,
+  run_handler_prog users self
+    (P [HGetPaths "x0" "x1" ERest; HSetAttr "current_directory" (EVar "x0"); HReply (ELit "250") EOpaque; HReturn true])
+    arg d appe w = None.
+Proof. exact cwd_real_path_has_no_denotation. Qed.
+
+Example C05_mkd_without_parents_has_no_denotation : forall users self arg d appe w,
+  run_handler_prog users self
+    (P [HGetPaths "x0" "x1" ERest; HBackend "mkdir" [EVar "x0"] [("parents"%string, EBool false)];
+        HReply (ELit "257") EOpaque; HReturn true])
+    arg d appe w = None.
+Proof. exact mkd_without_parents_has_no_denotation. Qed.
+
+Example C05_unclassified_has_no_denotation : forall users self arg d appe w t,
+  run_handler_prog users self (P [HOther t; HReply (ELit "200") EOpaque; HReturn true]) arg d appe w = None.
+Proof. exact unclassified_has_no_denotation. Qed.
+
+Example C05_type_accepting_E_differs : forall users self d appe w,
+  run_handler_prog users self
+    (P [HIf (CIn ERest ["I"; "A"; "E"]%string) [HSetAttr "transfer_type" ERest; HLet "x0" (ELit "200")] [HLet "x0" (ELit "502")];
+        HReply (EVar "x0") EOpaque; HReturn true]) [69%Z] d appe w = Some (reply w "200")
+  /\ body users self "type" [69%Z] d appe w = reply w "502".
+Proof. exact type_accepting_E_differs. Qed.
+
+Example C05_rnto_without_del_keeps_rename_from : forall users self arg d appe w src f,
+  s_rnfr (w_s w) = Some src -> rename src (resolve (s_cwd (w_s w)) arg) (w_fs w) = Some f ->
+  option_map (fun r => s_rnfr (w_s (fst (fst r))))
+    (run_handler_prog users self
+       (P [HGetPaths "x0" "x1" ERest; HLet "x2" (EAttr "rename_from");
+           HBackend "rename" [EVar "x2"; EVar "x0"] []; HReply (ELit "250") EOpaque; HReturn true])
+       arg d appe w) = Some (Some src).
+Proof. exact rnto_without_del_keeps_rename_from. Qed.
+
+Example C05_program_run_nonvacuous :
+  let w := {| w_s := init_sess; w_fs := NDir []; w_log := [] |} in
+  option_map (fun r => (w_fs (fst (fst r)), o_codes (snd (fst r))))
+    (run_handler_prog [] no_self (prog_of Gen.Handlers.programs "mkd") (t_of "a/b") DNone false w)
+  = Some (NDir [(t_of "a", NDir [(t_of "b", NDir [])])], [code "257"]).
+Proof. exact den_example_mkd. Qed.
